@@ -227,6 +227,17 @@ def gen_plan(rng, tier, i):
     import random
 
     child = random.Random("c10-child:" + repr(len(ops)) + repr(knobs.get("eps_bisect_us")) + repr([o.get("task") for o in ops]))  # added after the first version: own generator
+    for st_ in knobs.get("stations", []):
+        if st_.get("mask") and child.random() < 0.35:
+            # a mask with a steep wall (a building, a cliff) over part of the azimuths: the satellite may come out from behind it while
+            # already descending, or go behind it while still rising
+            a0 = child.uniform(0.3, 3.0)
+            a1 = a0 + child.uniform(1.0, 3.0)
+            wall = child.uniform(0.3, 0.6)
+            st_["mask"] = [[a0, a0 + 0.02, a1, a1 + 0.02, 2 * math.pi], [0.02, wall, wall, 0.02, 0.02]]
+    for ls_ in knobs.get("listeners", []):
+        if ls_.get("type") == "anomaly" and child.random() < 0.3:
+            ls_["assign_turns"] = child.choice([-2, -1, 1, 2])  # the value is assigned after construction, whole turns away
     for o in ops:
         if o["op"] == "start" and o["call"].get("listeners") and child.random() < 0.08:
             # the same listener object handed over twice in one list (lists merged by the caller): still one event per crossing
